@@ -86,7 +86,7 @@ def make_workload(seed: int, idx: int) -> dict:
     slot = idx % 3
     cfg = {"physical": phys, "frame_size": [2, 5, 250][slot], "preset": [(8, 2, 2), (16, 4, 4), (4000, 150, 32)][slot],
            "delimited": True, "logical": pj.FLAT_LOGICAL[phys], "generalized": False, "rdf_star": False, "ns": False,
-           "stream_name": ""}
+           "stream_name": f"workload {idx}" if idx % 2 else ""}      # (every other stream is NAMED; nothing else tells them apart)
     need = gen.need_of(stmts, phys, True)
     n, p, d = cfg["preset"]
     cfg["preset"] = (max(n, need[1], 8), max(p, need[0]), max(d, need[2]))
